@@ -5,6 +5,8 @@ import (
 	"flag"
 	"fmt"
 	"os"
+	"runtime/debug"
+	"runtime/pprof"
 	"strings"
 	"time"
 
@@ -12,6 +14,7 @@ import (
 )
 
 func main() {
+	debug.SetGCPercent(400)
 	if len(os.Args) < 2 {
 		fmt.Println("usage: gse run|check|replay ...")
 		os.Exit(2)
@@ -40,7 +43,15 @@ func main() {
 		maxp := fs.Int("maxpaths", 100000, "")
 		depth := fs.Int("depth", 200, "")
 		loop := fs.Int("loop", 300, "")
+		params := fs.String("p", "", "k=v,...")
+		prof := fs.String("cpuprofile", "", "")
 		fs.Parse(os.Args[2:])
+		if *prof != "" {
+			f, _ := os.Create(*prof)
+			pprof.StartCPUProfile(f)
+			defer pprof.StopCPUProfile()
+			go func() { time.Sleep(40 * time.Second); pprof.StopCPUProfile(); os.Exit(0) }()
+		}
 		t0 := time.Now()
 		P, err := gse.Load("/repo", "/verif/harness")
 		if err != nil {
@@ -48,6 +59,14 @@ func main() {
 			os.Exit(2)
 		}
 		P.OpenFindings = map[string]bool{}
+		P.Params = map[string]int{}
+		for _, kv := range strings.Split(*params, ",") {
+			if i := strings.IndexByte(kv, '='); i > 0 {
+				var v int
+				fmt.Sscan(kv[i+1:], &v)
+				P.Params[kv[:i]] = v
+			}
+		}
 		fmt.Fprintf(os.Stderr, "loaded in %.1fs\n", time.Since(t0).Seconds())
 		gse.Trace = *trace
 		for _, name := range fs.Args() {
